@@ -5,6 +5,7 @@ package c10
 
 import (
 	"bytes"
+	"encoding/binary"
 	"encoding/json"
 	"fmt"
 	"os"
@@ -321,8 +322,7 @@ func TestRandom(t *testing.T) {
 				v.Codec = rapid.SampledFrom([]uint8{7, 12}).Draw(t, "scodec")
 			}
 			if v.Codec == 7 || v.Codec == 12 {
-				v.Trait = rapid.Uint8().Draw(t, "trait")
-				v.CTS = int32(rapid.IntRange(0, 1<<24-1).Draw(t, "cts"))
+				v.Trait, v.CTS = genTraitCTS(t)
 				cl, nt = append(cl, "avc"), true
 			} else if len(v.Raw) < 4 {
 				v.Raw = append(v.Raw, 1, 2, 3, 4)
@@ -461,8 +461,30 @@ func genRaw(t *rapid.T) []byte {
 	case 3:
 		pre := rapid.SampledFrom([][]byte{{0, 0, 0, 1}, {0, 0, 1}, {0, 0, 0, 1, 0x67}, {'F', 'L', 'V', 1, 5, 0, 0, 0, 9}, {0, 0, 0, 5}, {0xff, 0xf1}, {0x17, 0, 0, 0, 0}, {0xaf, 1}}).Draw(t, "magic")
 		return append(append([]byte(nil), pre...), rapid.SliceOfN(rapid.Byte(), 0, 12).Draw(t, "magictail")...)
+	case 4:
+		// a codec's own stream header as the payload: an RFC 7845 Opus identification header (19 bytes), or its comment header
+		if rapid.IntRange(0, 3).Draw(t, "opushdr") == 0 {
+			return append([]byte("OpusTags"), rapid.SliceOfN(rapid.Byte(), 0, 20).Draw(t, "tagstail")...)
+		}
+		h := append([]byte("OpusHead"), 1, uint8(rapid.IntRange(1, 8).Draw(t, "ohch")), 0x38, 0x01)
+		h = binary.LittleEndian.AppendUint32(h, rapid.SampledFrom([]uint32{48000, 44100, 24000, 16000, 12000, 8000, 999, 96000}).Draw(t, "ohrate"))
+		return append(append(h, 0, 0, 0), rapid.SliceOfN(rapid.Byte(), 0, 4).Draw(t, "ohtail")...)
+	case 5:
+		// container four-character codes (enhanced RTMP, MP4 sample entries) in front of the payload
+		return append([]byte(rapid.SampledFrom(fourCCs).Draw(t, "fourcc")), rapid.SliceOfN(rapid.Byte(), 0, 12).Draw(t, "fourcctail")...)
 	}
 	return rapid.SliceOfN(rapid.Byte(), 0, 40).Draw(t, "raw")
+}
+
+var fourCCs = []string{"hvc1", "hev1", "avc1", "av01", "vp09", "vp08", "mp4a", "Opus", "fLaC", "ac-3", "ec-3", ".mp3"}
+
+// genTraitCTS: AVC/HEVC trait and composition time; now and then the four bytes behind the first one spell a four-character code.
+func genTraitCTS(t *rapid.T) (uint8, int32) {
+	if rapid.IntRange(0, 15).Draw(t, "ctsfourcc") == 0 {
+		f := rapid.SampledFrom(fourCCs).Draw(t, "ctscc")
+		return f[0], int32(f[1])<<16 | int32(f[2])<<8 | int32(f[3])
+	}
+	return rapid.Uint8().Draw(t, "trait"), int32(rapid.IntRange(0, 1<<24-1).Draw(t, "cts"))
 }
 
 func genAF(t *rapid.T) AF {
@@ -504,8 +526,7 @@ func genBCase(t *rapid.T) BCase {
 			}
 		}
 		if v.Codec == 7 || v.Codec == 12 {
-			v.Trait = rapid.Uint8().Draw(t, "vtrait")
-			v.CTS = int32(rapid.IntRange(0, 1<<24-1).Draw(t, "cts"))
+			v.Trait, v.CTS = genTraitCTS(t)
 		}
 		c.Video = append(c.Video, v)
 	}
